@@ -81,7 +81,7 @@ type Step struct {
 type Case struct {
 	ThrottleField string  `json:"throttle_field"`
 	TimeField     string  `json:"time_field"`  // "" = current time is taken
-	TimeFormat    string  `json:"time_format"` // rfc3339nano | unixtimemilli
+	TimeFormat    string  `json:"time_format"` // rfc3339nano | unixtimemilli | unixtimefloat (format unixtime, value written as seconds.fraction)
 	DefaultLimit  int64   `json:"default_limit"`
 	DefaultKind   string  `json:"default_kind"`
 	DefaultDist   *Dist   `json:"default_dist,omitempty"`
@@ -172,7 +172,7 @@ func gen(t *rapid.T) Case {
 	c := Case{}
 	c.ThrottleField = rapid.SampledFrom([]string{"pod", "pod", "pod", "meta.pod", ""}).Draw(t, "throttle_field")
 	c.TimeField = rapid.SampledFrom([]string{"time", "time", "time", "ts", ""}).Draw(t, "time_field")
-	c.TimeFormat = rapid.SampledFrom([]string{"rfc3339nano", "rfc3339nano", "rfc3339nano", "unixtimemilli"}).Draw(t, "time_format")
+	c.TimeFormat = rapid.SampledFrom([]string{"rfc3339nano", "rfc3339nano", "rfc3339nano", "unixtimemilli", "unixtimefloat"}).Draw(t, "time_format")
 	c.BucketsCount = rapid.SampledFrom([]int{1, 2, 2, 3, 3, 4, 5, 8, 1, 2, 3, 4, 16, 60}).Draw(t, "buckets_count")
 	c.IntervalMs = rapid.SampledFrom([]int64{100, 100, 1000, 1000, 1000, 1000, 1500, 1500, 7000, 7000, 60000, 60000, 3600000}).Draw(t, "interval_ms")
 	if c.BucketsCount > 8 && c.IntervalMs > 7000 {
@@ -411,7 +411,7 @@ func configJSON(c Case) []byte {
 	m := map[string]any{
 		"throttle_field":     c.ThrottleField,
 		"time_field":         c.TimeField,
-		"time_field_format":  c.TimeFormat,
+		"time_field_format":  map[bool]string{true: "unixtime", false: c.TimeFormat}[c.TimeFormat == "unixtimefloat"],
 		"default_limit":      c.DefaultLimit,
 		"limit_kind":         c.DefaultKind,
 		"limiter_backend":    "memory",
@@ -455,6 +455,19 @@ func timeFieldValue(c Case, s Step, startMs int64) string {
 	}
 	if c.TimeFormat == "unixtimemilli" {
 		return strconv.FormatInt(startMs+s.AtMs, 10)
+	}
+	if c.TimeFormat == "unixtimefloat" {
+		// "when timestamp is presented as a float number its whole part is always considered as seconds and
+		// the fractional part is fractions of a second" (xtime): exact decimal, up to nine digits
+		ns := eventTimeNs(c, s, startMs)
+		if ns < 0 {
+			return strconv.FormatInt(ns/1_000_000_000, 10)
+		}
+		frac := strings.TrimRight(fmt.Sprintf("%09d", ns%1_000_000_000), "0")
+		if frac == "" {
+			frac = "0"
+		}
+		return strconv.FormatInt(ns/1_000_000_000, 10) + "." + frac
 	}
 	tm := time.Unix(0, eventTimeNs(c, s, startMs)).In(time.FixedZone("", s.TZMin*60))
 	return tm.Format(time.RFC3339Nano)
